@@ -22,7 +22,8 @@ THEOREMS = ["rw_identity", "rw_items", "rw_total", "rw_significant", "rw_hints",
             "do_is_a_candidate", "names_distinct", "names_fresh", "firstFree_total", "newVariable_total",
             "ident_needsSpace", "ws_between_idents_kept", "old_needsSpace_counterexample", "old_varptr_counterexample",
             "varPtrName_cached", "wrapper_tail_stripped", "junction_examples",
-            "objectName_assigned", "objectName_new", "root_only_allocation_breaks"]
+            "objectName_assigned", "objectName_new", "root_only_allocation_breaks",
+            "ctorParam_ne_shortName", "ctor_params_disjoint_from_pkg_names", "unsuffixed_ctor_param_counterexample"]
 
 KW = ["abstract", "arguments", "await", "async", "boolean", "break", "byte", "case", "catch", "char", "class", "const",
       "continue", "debugger", "default", "delete", "do", "double", "else", "enum", "eval", "export", "extends", "false",
@@ -945,6 +946,73 @@ def prog_localtypes(rng):
     return "\n".join(L) + "\n"
 
 
+MIN_LETTERS = [chr(c) for c in range(65, 91)] + [chr(c) for c in range(97, 123)] + ["AA", "AB", "BA", "ID", "aa", "ba", "Aa", "zz"]
+
+
+def prog_structzero(rng):
+    """Struct types whose FIELD names come from the alphabet the minifier hands out (A–Z, a–z, two letters) and whose field
+    types need package-level type variables for their zero value (slices, pointers, arrays, maps, nested structs, funcs),
+    zero-constructed through every path: make([]T, n), array zero value, map miss, receive from a closed channel, embedded
+    zero, generic `var z T`, new(T), T{}, var t T."""
+    ntypes = rng.randrange(2, 5)
+    L = ["package main", ""]
+    types_ = []
+    kinds = [("[]float64", "%s == nil"), ("[]int", "len(%s) == 0"), ("*int", "%s == nil"), ("[2]int", "%s[1] == 0"),
+             ("map[string]int", "len(%s) == 0"), ("func(int) int", "%s == nil"), ("[]string", "%s == nil"),
+             ("*[3]byte", "%s == nil"), ("[]*int", "%s == nil"), ("chan int", "%s == nil"), ("inner", "%s.q == 0 && %s.r == nil"),
+             ("*inner", "%s == nil"), ("[2]inner", "%s[1].q == 0"), ("[]inner", "len(%s) == 0"), ("interface{}", "%s == nil"),
+             ("string", "%s == \"\""), ("int", "%s == 0")]
+    L.append("type inner struct {")
+    L.append("\tq int")
+    L.append("\tr []int")
+    L.append("}")
+    L.append("")
+    for t in range(ntypes):
+        nf = rng.randrange(3, 12)
+        names = rng.sample(MIN_LETTERS, nf)
+        fields = [(nm, rng.choice(kinds)) for nm in names]
+        tname = "T%d" % t
+        L.append("type %s struct {" % tname)
+        for nm, (ty, _) in fields:
+            L.append("\t%s %s" % (nm, ty))
+        L.append("}")
+        L.append("")
+        cond = " && ".join("(" + chk.replace("%s", "v." + nm) + ")" for nm, (ty, chk) in fields)
+        L.append("func zero%d(v %s) bool { return %s }" % (t, tname, cond))
+        L.append("")
+        types_.append((tname, fields))
+    L.append("type outer struct {")
+    L.append("\tT0")
+    L.append("\tn int")
+    L.append("}")
+    L.append("")
+    L.append("func gz[T any]() T { var z T; return z }")
+    L.append("")
+    L.append("func main() {")
+    for t, (tname, fields) in enumerate(types_):
+        z = "zero%d" % t
+        L.append("\t{")
+        L.append("\t\ts := make([]%s, %d)" % (tname, rng.randrange(1, 4)))
+        L.append("\t\tvar arr [2]%s" % tname)
+        L.append("\t\tm := map[int]%s{}" % tname)
+        L.append("\t\tch := make(chan %s, 1)" % tname)
+        L.append("\t\tclose(ch)")
+        L.append("\t\tfromCh, ok := <-ch")
+        L.append("\t\tvar v %s" % tname)
+        L.append("\t\tgrown := append([]%s(nil), make([]%s, 2)...)" % (tname, tname))
+        L.append("\t\tprintln(%d, %s(s[len(s)-1]), %s(arr[1]), %s(m[7]), %s(fromCh), ok, %s(v), %s(%s{}), %s(*new(%s)), %s(gz[%s]()), %s(grown[1]), %s(gz[[2]%s]()[0]))" % (
+            t, z, z, z, z, z, z, tname, z, tname, z, tname, z, z, tname))
+        nm, (ty, _) = fields[0]
+        L.append("\t\ts[0] = %s{}" % tname)
+        L.append("\t\tcopy(s, arr[:1])")
+        L.append("\t\tprintln(%s(s[0]))" % z)
+        L.append("\t}")
+    L.append("\tos := make([]outer, 2)")
+    L.append("\tprintln(zero0(os[1].T0), os[0].n, zero0(gz[outer]().T0))")
+    L.append("}")
+    return "\n".join(L) + "\n"
+
+
 LEGAL_LINE = ["//! %s v1.2.0 | (c) ACME | MIT license", "// @license %s MIT", "// @preserve %s keep me", "//! %s"]
 LEGAL_BLOCK = ["/*! %s (c) ACME */", "/** @license %s\n * MIT\n */", "/* @preserve %s */"]
 
@@ -1029,6 +1097,23 @@ func main() {
 """
 
 
+WITNESS_CTOR_UNDERSCORE = """package main
+
+type X_ struct{ n int }
+
+type T struct {
+	X X_
+	k int
+}
+
+func main() {
+	ts := make([]T, 2)
+	println(ts[1].X.n, ts[0].k, len(ts))
+}
+"""
+SIG_CTOR_UNDERSCORE = "C16 plain-vs-minify struct-field=X of package-level type X_: ctor parameter X_ shadows the type in the plain build"
+
+
 def gen_programs(rng, tier):
     jobs = []
 
@@ -1050,6 +1135,8 @@ def gen_programs(rng, tier):
         add("genericptr", prog_generic_ptr(rng))
     for _ in range(3 if tier == "quick" else 12):
         add("localtypes", prog_localtypes(rng))
+    for _ in range(4 if tier == "quick" else 16):
+        add("structzero", prog_structzero(rng))
     for _ in range(4 if tier == "quick" else 24):
         files, expect = prog_incjs(rng)
         jobs.append({"id": "incjs%d" % len(jobs), "files": files, "variants": ["plain", "minify"], "native": False,
@@ -1164,6 +1251,49 @@ def js_structure(js):
             if len(texts) > 1:
                 bad.append("variable %s is assigned %d different type values: %s" % (v, len(texts), " | ".join(sorted(texts))[:300]))
     return bad
+
+
+def js_scopes(named_js):
+    """Scope analysis (harness/js/topics/c16scope.js, Node's acorn) of minified scripts: no function nested in a package
+    declares a name of that package's var list. named_js: [(id, js)] -> {id: [violation strings]}; also checks that every
+    struct constructor parameter ends in `_` (the scheme GV.Props.C16.ctor_params_disjoint_from_pkg_names is about)."""
+    import os, re, subprocess, tempfile
+    res = {}
+    if not named_js:
+        return res
+    d = tempfile.mkdtemp(prefix="gvc16s-")
+    try:
+        paths = []
+        for i, (jid, js) in enumerate(named_js):
+            f = os.path.join(d, "p%d.js" % i)
+            open(f, "w").write(js)
+            paths.append(f)
+        p = subprocess.run(["node", "--expose-internals", "--stack-size=4000", os.path.join(C.HARNESS, "js", "topics", "c16scope.js")] + paths,
+                           capture_output=True, text=True, timeout=1800)
+        if p.returncode != 0:
+            raise RuntimeError("c16scope.js failed: " + p.stderr[-2000:])
+        outs = [json.loads(l) for l in p.stdout.split("\n") if l.strip()]
+        if len(outs) != len(named_js):
+            raise RuntimeError("c16scope.js answered %d results for %d scripts" % (len(outs), len(named_js)))
+        for (jid, js), o in zip(named_js, outs):
+            v = []
+            if o.get("error"):
+                v.append("script does not parse: " + o["error"])
+            if not o.get("error") and o.get("packages", 0) == 0:
+                raise RuntimeError("c16scope.js found no package in script %s" % jid)
+            for x in o.get("violations", []):
+                v.append("package %s: a nested function declares the package-level name(s) %s: %s" % (x["pkg"], ",".join(x["names"]), x["where"][:140]))
+            for m in re.finditer(r"function\(([^()]*)\)\{this\.\$val=this;if\(arguments\.length===0\)", js):
+                bad = [a for a in m.group(1).split(",") if a and not a.endswith("_")]
+                if bad:
+                    v.append("struct constructor parameters without the `_` suffix: %s" % ",".join(bad[:8]))
+                    break
+            res[jid] = v
+            res.setdefault("_functions", 0)
+            res["_functions"] += o.get("functions", 0)
+    finally:
+        shutil.rmtree(d, ignore_errors=True)
+    return res
 
 
 def node_check(js):
@@ -1289,9 +1419,14 @@ def run(tier, seed):
     import time
     t_phase = time.time()
     phases = {}
+    jobs.append({"id": "witness-ctor-underscore", "files": {"main.go": WITNESS_CTOR_UNDERSCORE}, "variants": ["plain", "minify"],
+                 "native": True, "kind": "witness2", "keep_js": True})
     results = run_programs(jobs)
     phases["programs"] = round(time.time() - t_phase, 1)
     pv_native = 0
+    scopes = js_scopes([(j["id"], r["runs"]["minify"]["js"]) for j, r in zip(jobs, results)
+                        if r["runs"].get("minify", {}).get("js")])
+    chk.extra["js_scope_functions_analysed"] = scopes.pop("_functions", 0)
     for j, r in zip(jobs, results):
         runs = r["runs"]
         op = j["files"]["main.go"]
@@ -1323,7 +1458,15 @@ def run(tier, seed):
                 chk.add_mismatch("js-structure", op, "%s build: %s" % (variant, b), "every JS scope declares an identifier once; one type value per package-level variable",
                                  signature="C16 js-structure duplicate")
                 break
+        for b in scopes.get(j["id"], []):
+            chk.add_mismatch("js-scope", op, "minify build: " + b, "no function scope of the minified output declares a name of its package's var list "
+                             "(pkg_local_disjoint, ctor_params_disjoint_from_pkg_names)", signature="C16 js-scope shadowing")
+            break
         chk.count("js-structure:checked")
+        if j["kind"] == "witness2":
+            if p != m:
+                chk.add_mismatch("programs", op, "plain=%s minify=%s" % (p, m), str(nat), signature=SIG_CTOR_UNDERSCORE)
+            continue
         if j["kind"] == "witness":
             if p != m:
                 chk.add_mismatch("programs", op, "plain=%s minify=%s" % (p, m), str(nat),
